@@ -516,6 +516,22 @@ func c09partial(rec *mon.Recorder, kind string, b []byte, cd c09codec, verify fu
 			rec.Violate("partial-discard", kind+"/"+which+"/kept-bucket-changed", fmt.Sprintf("discarding Raw%s changed the bytes of the OTHER bucket\n in  %s\n out %s", which, hexs(b[top.Kids[keptIdx].Start:top.Kids[keptIdx].End]), hexs(out[o.Kids[keptIdx].Start:o.Kids[keptIdx].End])), inn)
 			return
 		}
+		// ... and the layers below, whose retained bytes the caller did not discard, come out as they came in
+		if which == "unprotected" {
+			ia, oa := c09nestedItems(top.Kids[1]), c09nestedItems(o.Kids[1])
+			if len(ia) > 0 {
+				rec.Event("partial-discard:nested-layers")
+				bad := len(ia) != len(oa)
+				for k := 0; !bad && k < len(ia); k++ {
+					x, y := ia[k], oa[k]
+					bad = !eqBytes(x.Kids[0].Str, y.Kids[0].Str) || !eqBytes(b[x.Kids[1].Start:x.Kids[1].End], out[y.Kids[1].Start:y.Kids[1].End]) || !eqBytes(x.Kids[2].Str, y.Kids[2].Str)
+				}
+				if bad {
+					rec.Violate("partial-discard", kind+"/nested-layer-changed", fmt.Sprintf("discarding only the outer RawUnprotected changed a countersignature layer below it\n in  %s\n out %s", hexs(b[top.Kids[1].Start:top.Kids[1].End]), hexs(out[o.Kids[1].Start:o.Kids[1].End])), inn)
+					return
+				}
+			}
+		}
 		// (the re-encoded bucket itself is judged by the full-discard oracles below: the CBOR library
 		//  legitimately normalises float widths, date tags and key order there)
 		if _, derr := cd.decode(out); derr != nil && !c09hasBignumWitness(b) && !strings.Contains(derr.Error(), "overflows Go's int64") {
@@ -535,4 +551,34 @@ func c09partial(rec *mon.Recorder, kind string, b []byte, cd c09codec, verify fu
 			rec.Event("partial-discard:verified")
 		}
 	}
+}
+
+// c09nestedItems lists the countersignature items ([protected, unprotected, signature]) held under
+// labels 7 and 11 of an unprotected header map, label 7 first, each in wire order.
+func c09nestedItems(m *refcbor.Node) []*refcbor.Node {
+	var out []*refcbor.Node
+	if m == nil || m.Major != refcbor.Map {
+		return nil
+	}
+	for _, label := range []uint64{7, 11} {
+		for k := 0; k+1 < len(m.Kids); k += 2 {
+			key, val := m.Kids[k], m.Kids[k+1]
+			if key.Major != refcbor.Uint || key.Arg != label || val.Major != refcbor.Array {
+				continue
+			}
+			isItem := func(n *refcbor.Node) bool {
+				return n.Major == refcbor.Array && len(n.Kids) == 3 && n.Kids[0].Major == refcbor.Bstr && n.Kids[1].Major == refcbor.Map && n.Kids[2].Major == refcbor.Bstr
+			}
+			if isItem(val) {
+				out = append(out, val)
+				continue
+			}
+			for _, it := range val.Kids {
+				if isItem(it) {
+					out = append(out, it)
+				}
+			}
+		}
+	}
+	return out
 }
